@@ -23,16 +23,23 @@ def kt(k):
     return tuple(k) if isinstance(k, list) else (k,)
 
 
-def make_table(on, name, rows, col=None):
-    """rows: [[key, value], ...] in the given order"""
+def make_table(on, name, rows, col=None, order='on'):
+    """rows: [[key, value], ...] in the given order; order: how the table stores its columns - key columns in the order of `on`,
+    reversed ('rev'), or with the value column first ('vfirst').  The join must not depend on it."""
     from pyg_base import dictable
-    cols = {c: [kt(k)[i] for k, _ in rows] for i, c in enumerate(on)}
-    cols[col or name] = [v for _, v in rows]
+    keycols = {c: [kt(k)[i] for k, _ in rows] for i, c in enumerate(on)}
+    val = {col or name: [v for _, v in rows]}
+    if order == 'rev':
+        cols = dict(list(reversed(list(keycols.items()))) + list(val.items()))
+    elif order == 'vfirst':
+        cols = dict(list(val.items()) + list(reversed(list(keycols.items()))))
+    else:
+        cols = dict(list(keycols.items()) + list(val.items()))
     return dictable(**cols)
 
 
 def is_table(v):
-    return isinstance(v, list) and len(v) == 2 and v[0] == 'T'
+    return isinstance(v, list) and len(v) in (2, 3) and v[0] == 'T'
 
 
 def expected_join(on, inputs, defaults):
@@ -74,7 +81,7 @@ def check_case(c, case):
     txt = 'on=%r inputs=%r defaults=%r previously computed=%r' % (on, inputs, defaults, cache)
 
     def args():
-        return {n: make_table(on, n, spec[1]) if is_table(spec) else spec for n, spec in inputs.items()}
+        return {n: make_table(on, n, spec[1], order=spec[2] if len(spec) > 2 else 'on') if is_table(spec) else spec for n, spec in inputs.items()}
     exp = expected_join(on, inputs, defaults)
     # ---- join(inputs, on, defaults)
     try:
@@ -146,7 +153,8 @@ def run_chunk(cases):
 def table_spec(rng, on, name, subset):
     ks = [keyspace(on)[i] for i in subset]
     rng.shuffle(ks)
-    return ['T', [[k, '%s%s' % (name, ''.join(kt(k))[-2:])] for k in ks]]
+    order = rng.choice(['on', 'on', 'rev', 'vfirst'])
+    return ['T', [[k, '%s%s' % (name, ''.join(kt(k))[-2:])] for k in ks], order]
 
 
 def all_subsets():
